@@ -23,7 +23,8 @@ func init() {
 			"R3 the status gate: (*http.Client).Do is called only from client.do, whose non-2xx/unexpected statuses become errors, and error bodies are read only through io.LimitReader. " +
 			"R1b ociref.IsValidDigest answers true only when go-digest's Parse/Validate reported no error (so validated digests have an available algorithm). " +
 			"R6 the same panic inventory over the challenge parser of the authorising transport (challengeFromResponse and the private helpers it reaches), whose input is a Www-Authenticate header chosen by the server; the bounds prover's loop invariants (counted loop: i <= len(s) after `for i < len(s)`; lockstep cursors: j - i never grows when j advances at most as fast as i) discharge the scanner loops and the unescape buffer. R4 the lock-order graph of ociclient is acyclic (no method takes a mutex that may already be held on the way to it). " +
-			"R5 in the authorising transport's challenge parser, the buffer that receives the unescaped rest of a quoted string is at least len(s)-1 bytes (an unterminated string with one escape writes exactly that many).",
+			"R5 in the authorising transport's challenge parser, the buffer that receives the unescaped rest of a quoted string is at least len(s)-1 bytes (an unterminated string with one escape writes exactly that many). " +
+			"R7 a private (*T, error) function of ociauth/ociclient whose result is dereferenced unchecked (directly, through a phi, or after being handed up unchanged) never returns a pointer that can be nil with a nil error (the nil constant, or a local pointer variable filled only through its address, e.g. by json.Unmarshal).",
 		NotDecided: "the quality/wording of the returned errors is not decided.",
 		Technique:  "static analysis: panic-site inventory with a difference-bound prover and guard obligations (disjunctive path facts), natural-loop progress classification",
 	})
@@ -41,6 +42,7 @@ func runC18(c *core.Ctx) {
 	validDigestMeansParseable(c, "C18.R1")
 	clientLocksAcyclic(c, "C18.R4")
 	unescapeBufferHoldsTheRest(c, "C18.R5")
+	pointerResultsNonNilOnSuccess(c, "C18.R7", "ociauth", "ociclient")
 	// R6: the challenge parser of the authorising transport sees a header chosen by the server
 	if cfr := c.P.Func("ociauth", "challengeFromResponse"); cfr == nil {
 		c.Fail("C18.R6", "anchor/ociauth.challengeFromResponse", 0, "ociauth.challengeFromResponse not found")
@@ -275,16 +277,39 @@ func digestChain(c *core.Ctx) (bool, string) {
 		}
 	}
 	validated, requireChecked := false, false
-	for _, r := range returnsOf(hdrFn) {
-		if facts.RetErrIsNil(r) {
-			continue
+	if hdrDigest != nil {
+		// every way of succeeding has either found the header empty (the known digest
+		// is used instead) or seen IsValidDigest(header) answer true
+		fromHdr := func(v ssa.Value) bool {
+			return sliceHas(v, func(x ssa.Value) bool { return x == hdrDigest })
 		}
-		for _, cd := range facts.CondsAt(r.Block()) {
-			if call, ok := cd.V.(*ssa.Call); ok && !cd.Pos && strings.HasSuffix(facts.CalleeName(&call.Call), "ociref.IsValidDigest") && hdrDigest != nil {
-				if sliceHas(call.Call.Args[0], func(v ssa.Value) bool { return v == hdrDigest }) {
-					validated = true
+		ff := facts.FlowFuncs{
+			Edge: func(b *ssa.BasicBlock, idx int, t facts.Tokens) bool {
+				for _, cd := range facts.EdgeConds(b, idx) {
+					if call, ok := cd.V.(*ssa.Call); ok && cd.Pos && strings.HasSuffix(facts.CalleeName(&call.Call), "ociref.IsValidDigest") && fromHdr(call.Call.Args[0]) {
+						t["valid"] = true
+					}
+					if x, isEmpty, ok := facts.EmptyTest(cd); ok && isEmpty && fromHdr(x) {
+						t["hdrEmpty"] = true
+					}
 				}
+				return true
+			},
+		}
+		flow := facts.PathFlow(hdrFn, ff)
+		validated = true
+		nOK := 0
+		for _, r := range returnsOf(hdrFn) {
+			if !facts.RetErrIsNil(r) {
+				continue
 			}
+			nOK++
+			if !facts.AllAt(ff, flow, r, func(t facts.Tokens) bool { return t["valid"] || t["hdrEmpty"] }) {
+				validated = false
+			}
+		}
+		if nOK == 0 {
+			validated = false
 		}
 	}
 	if validated && hdrFn != dfr {
